@@ -2,10 +2,10 @@ package main
 
 import (
 	"fmt"
-	"os"
-	"sort"
 	"go/token"
 	"go/types"
+	"os"
+	"sort"
 	"strings"
 
 	"golang.org/x/tools/go/ssa"
@@ -16,21 +16,21 @@ import (
 // SEEK-MERGED.  Anchors are resolved by type structure and signatures.
 
 type mergedAnchors struct {
-	entryT   *types.Named // pqEntry: struct{ record; int }
-	recField string
-	idxField string
-	heapT    *types.Named // struct{ []pqEntry }
-	iterT    *types.Named // mergedIter: struct with a heap field
-	less     *ssa.Function
-	hTop     *ssa.Function
-	hRemove  *ssa.Function
-	hAdd     *ssa.Function
-	hEmpty   *ssa.Function
-	next     *ssa.Function // mergedIter.Next (exported iterator interface method)
-	producer *ssa.Function // the method that removes from the heap
-	advance  *ssa.Function
-	initF    *ssa.Function
-	seekRec  *ssa.Function // (*Merged).seekRecord
+	entryT    *types.Named // pqEntry: struct{ record; int }
+	recField  string
+	idxField  string
+	heapT     *types.Named // struct{ []pqEntry }
+	iterT     *types.Named // mergedIter: struct with a heap field
+	less      *ssa.Function
+	hTop      *ssa.Function
+	hRemove   *ssa.Function
+	hAdd      *ssa.Function
+	hEmpty    *ssa.Function
+	next      *ssa.Function // mergedIter.Next (exported iterator interface method)
+	producer  *ssa.Function // the method that removes from the heap
+	advance   *ssa.Function
+	initF     *ssa.Function
+	seekRec   *ssa.Function // (*Merged).seekRecord
 	newMerged *ssa.Function
 }
 
@@ -260,8 +260,8 @@ func checkMergedView(p *Program, r *Report) {
 	{
 		top, rem, adv := funcKey(a.hTop), funcKey(a.hRemove), funcKey(a.advance)
 		cfg := &simCfg{
-			Event:  map[string]bool{top: true, rem: true, adv: true, "method:(record).copyFrom": true, funcKey(a.hEmpty): true},
-			Pure:   map[string]bool{keyName: true},
+			Event:           map[string]bool{top: true, rem: true, adv: true, "method:(record).copyFrom": true, funcKey(a.hEmpty): true},
+			Pure:            map[string]bool{keyName: true},
 			NoInlineDefault: true,
 		}
 		c, _ := runSim(p, a.producer, cfg, nil)
